@@ -44,6 +44,9 @@ func (P *Prog) encoderWireValueD(enc *ssa.Function, depth int) (wire *Term, tag 
 			for _, a := range u.Args {
 				collect(a)
 			}
+		case "gate":
+			collect(u.Args[1])
+			collect(u.Args[2])
 		case "res":
 			if u.S == "0" && u.Args[0].Op == "call" && u.Args[0].S == "invoke:cbor.EncMode.Marshal" {
 				calls = append(calls, u.Args[0])
@@ -110,6 +113,14 @@ func checkEncoderSlots(r *Report, rule string) {
 			os := r.ob(rule, name+":slot:"+sl.field, enc, nil, "wire slot "+sl.field+" is the bucket marshaler's result for the receiver's Headers")
 			_, ok := unify(sl.want, got, bindings{})
 			os.check(ok, truncate(got.String(), 100), firstDiff(sl.want, got, sl.field))
+			// ... chosen the way the bucket marshaler chooses (raw bytes when
+			// present): decision-table comparison with the marshaler's result
+			if ok {
+				mname := "(*Headers).Marshal" + sl.field
+				exp := canon(P.terms.expand(&Term{Op: "res", S: "0", Args: []*Term{{Op: "call", S: mname, Args: []*Term{h}}}}, 8))
+				eq, why := gateEquiv(exp, got)
+				r.ob(rule, name+":slot-choice:"+sl.field, enc, nil, "wire slot "+sl.field+" selects among the marshaler's alternatives exactly as "+mname+" does").check(eq, "same decision table", why)
+			}
 		}
 		st := T.Underlying().(*types.Struct)
 		for i := 0; i < st.NumFields(); i++ {
